@@ -128,6 +128,8 @@ func astFamily(f func(sc.Case)) {
 		gen.Int("1").With(gen.R("enum", "@E")),
 		gen.Int("2").With(gen.R("enum", "@E"), gen.R("nullable", "true")),
 		gen.Ref("@A"), gen.Ref("@A", "@B"), gen.Ref("@A").With(gen.R("nullable", "true")), gen.Ref("@B", "@A").With(gen.R("nullable", "true")),
+		gen.Ref("@A").With(gen.RL("or", lit(`"string"`), lit(`"integer"`))),
+		gen.Ref("@B").With(gen.RL("or", lit(`"boolean"`), lit(`"null"`)), gen.R("nullable", "true")),
 		gen.Obj().With(gen.R("allOf", `"@O"`)),
 		gen.Obj(gen.P("own", gen.Int("1"))).With(gen.RL("allOf", lit(`"@O"`), lit(`"@P"`)), gen.R("additionalProperties", "true")),
 		gen.Obj().With(gen.R("additionalProperties", `"@A"`)),
